@@ -115,6 +115,7 @@ func execute(sc Scenario, rng *rand.Rand) (rec, error) {
 	s := res.NewService("test")
 	s.SetLogger(nil)
 	stepPad = ""
+	errVariant = (sc.Name+2*len(sc.Script))%3 == 1
 	if (sc.Name+len(sc.Script))%4 == 3 {
 		// one of the bundled loggers with everything switched on, and payloads of a few kilobytes
 		s.SetLogger(logger.NewMemLogger().SetTrace(true))
@@ -592,7 +593,7 @@ func abstract(m rconn.Msg, inbox, rname, cid string) (rec, string) {
 						bad = append(bad, "unknown error member "+ek)
 					}
 				}
-				msg["code"] = code
+				msg["code"] = verbatim(code, message, string(e["data"]))
 			case "meta":
 				msg["meta"] = true
 				var meta map[string]json.RawMessage
@@ -721,6 +722,26 @@ type panicMarshal struct{ p *int }
 func (v panicMarshal) MarshalJSON() ([]byte, error) { return []byte(fmt.Sprint(*v.p)), nil }
 
 // doStep performs one script step on the request.
+// errVariant: the error values of the steps error-res and panic-res carry one of the library's own codes
+// with its default message, plus data. The protocol parser reports them under the steps' usual codes when
+// - and only when - they arrive verbatim.
+var errVariant bool
+
+// verbatim maps a parsed error to the code the reference expects for it.
+func verbatim(code, message, data string) string {
+	switch {
+	case code == "custom.error" && !(message == `m"sg` && data == `{"d":1}`) && !(message == ctlText && data == ""):
+		return code + "!altered"
+	case code == "custom.panic" && (message != "panicked" || data != ""):
+		return code + "!altered"
+	case errVariant && code == res.CodeInvalidParams && message == "Invalid parameters" && data == `{"d":1}`:
+		return "custom.error"
+	case errVariant && code == res.CodeNotFound && message == "Not found" && data == `{"p":true}`:
+		return "custom.panic"
+	}
+	return code
+}
+
 // stepPad, when set, is added to the values the handler steps send (payloads far above a kilobyte)
 var stepPad string
 
@@ -759,6 +780,11 @@ func doStep(r *res.Request, st string) {
 	case "resource-bad":
 		r.Resource("bad rid*")
 	case "error-res":
+		if errVariant {
+			// an error with a code and the default message the library itself uses - and data of its own
+			r.Error(&res.Error{Code: res.CodeInvalidParams, Message: "Invalid parameters", Data: map[string]int{"d": 1}})
+			return
+		}
 		r.Error(&res.Error{Code: "custom.error", Message: `m"sg`, Data: map[string]int{"d": 1}})
 	case "error-plain":
 		r.Error(errors.New("plain"))
@@ -889,6 +915,9 @@ func doStep(r *res.Request, st string) {
 	case "requirevalue-missing":
 		r.RequireValue()
 	case "panic-res":
+		if errVariant {
+			panic(&res.Error{Code: res.CodeNotFound, Message: "Not found", Data: map[string]bool{"p": true}})
+		}
 		panic(&res.Error{Code: "custom.panic", Message: "panicked"})
 	case "panic-err":
 		panic(errors.New("plain panic"))
